@@ -339,6 +339,10 @@ SPECIAL = [
     ('array2d', 'float m[2][2];'), ('array3d', 'char c[2][3][2]; short t;'), ('array-of-struct-2d', 'struct { char a; int b; } p[2][3]; char z;'),
     ('nested-union-array', 'union { double d[1][2]; long l; } u; float f;'), ('bitfield-then-array', 'int b : 5; char a[3];'),
     ('bool-enum-ptr', '_Bool b; enum { SPQ } e; void *p; void (*f)(void);'), ('anonymous-members', 'char c; union { int i; float f; }; struct { short a, b; }; char z;'),
+    # unnamed bit-fields leave gaps the descriptor must account for; packed and zero-length members (GNU); judged on x86_64-sysv only (-x86)
+    ('gap-zero-width-bitfield-x86', 'char a; int : 0; char b;'), ('gap-unnamed-bitfield-16-x86', 'char a; int : 16; char b;'), ('gap-unnamed-bitfield-then-int-x86', 'char a; int : 3; int i;'),
+    ('gap-long-unnamed-bitfield-x86', 'char a; long : 40; char b;'), ('gap-zero-width-then-short-x86', 'short s; char c; int : 0; short t;'),
+    ('zero-length-array-x86', 'int n; int a[0];'), ('zero-length-array-middle-x86', 'char c; long z[0]; char d;'),
     ('tail-padding', 'long l; char c;'), ('nested-tail-padding', 'struct { long l; char c; } in; char z;'), ('char-array-17', 'char c[17];'), ('three-floats-and-double', 'float a, b, c; double d;'),
 ]
 
@@ -366,6 +370,8 @@ def special_descriptors(chk):
     for i, (name, body) in enumerate(SPECIAL):
         unit = 'struct sp%d { %s };\nstruct sp%d sp_f%d(long a, struct sp%d s) { (void)a; return s; }\n' % (i, body, i, i, i)
         for t in TARGETS:
+            if name.endswith('-x86') and t != 'x86_64-sysv':
+                continue
             n += 1
             r = srv.compile(unit, target=t, cpu_s=30)
             if r.status != 0:
